@@ -24,7 +24,7 @@ DETECT = {  # (incoming dir, patch number) -> (detected, by which check / assert
  ('C01-a', 1): (False, 'not detected', 'the change widens which literal TEXTS the checker treats as dimension-polymorphic (subnormal literals); literals are fixed per template in the C01 check and symbolic magnitudes enter through a Scalar-typed hook, so no template exercises it. Stated as outside the claim.'),
  ('C01-a', 2): (True, 'C01 h_c01_sound: no-unit-incompatibility-at-run-time (template sub-polymorphic-zero-right)', ''),
  ('C08-b', 1): (False, 'not detected', 'overflow in suggestion::did_you_mean for an unknown identifier containing a character whose lowercase form is shorter in UTF-8: needs symbolic identifier text (keyword hash map) — outside the C08 kernels'),
- ('C08-b', 2): (False, 'not detected', 'jiff Span::seconds panics for durations between 2e4 and 2.9e11 years in DateTime +/- Time: no C19/C08 kernel drives the date-time opcodes (not applicable in this framework so far)'),
+ ('C08-b', 2): (True, 'C08 h_c19_add: panic, confirmed through Context::interpret (date-time plus a duration of about 2e4 years)', 'missed by the first version of C08 (no kernel drove the date-time opcodes); caught after the date-time kernel was added'),
  ('C20-b', 1): (True, 'C20 h_c20_writer: no-user-controlled-tag-open (colour state blue)', ''),
  ('C20-b', 2): (True, 'C20 h_c20_format: no-user-controlled-tag-close (FormatType Keyword / Decorator / Unit)', ''),
  ('C15-a', 1): (True, 'C15 h_c15_string: echoed-string-reads-back-as-the-same-string (backslash directly before a brace)', ''),
